@@ -477,7 +477,12 @@ def gen_foreign(rng, pool=None, shuffle=True, blanks=True, crlf=None,
             if nonfinite and rng.chance(0.04):
                 # numbers beyond the float range and the Infinity literals
                 # that Python's json module reads and writes
-                t0 = t = '{"ratio": 1e999, "k": [Infinity, -Infinity, 1]}'
+                # (also alone: numbers that are JSON by the letter and
+                # become infinities when read)
+                t0 = t = rng.choice([
+                    '{"ratio": 1e999, "k": [Infinity, -Infinity, 1]}',
+                    '{"ratio": 1e999, "k": [-1e999, 1]}',
+                    '{"big": 2e400}'])
                 kind = 'unix'
                 nl = R.NL(kind, eff)
 
